@@ -5,6 +5,9 @@
 //   kind "parse":  for every row of the decision table of spec/RulesAddress.tla (prefix x hex validity x decoded
 //                  length x checksum x case) K seeded strings are built with the real checksum function
 //                  (hashing.Checksum) and given to StringToAddress and Address.UnmarshalText
+//   kind "parse-x": strings that carry checksum / hash material of a full-length address in the wrong place
+//                  (address ++ hash suffix of any length but 4, checksum in front / in the middle / reversed / doubled,
+//                  ...); their features are lexed from the string itself
 //   kind "format": seeded addresses are formatted (String, MarshalText); the text is lexed into the same features
 //                  and parsed back
 // The driver only builds / lexes strings and copies results; the verdict on each row is the specification's.
@@ -224,6 +227,86 @@ func TestVerifAddressRecord(t *testing.T) {
 				}
 			}
 		}
+	}
+
+	// "checksum material in the wrong place": strings whose LAST 4 bytes are not the checksum of the bytes before
+	// them although checksum / hash material of a full-length address occurs elsewhere in the string.  The features
+	// logged are the ones the string really has (lexed: decoded length, whether the last four bytes are the checksum of
+	// everything before them), so the specification's verdict applies unchanged: all of them must be rejected, except
+	// the occasional row whose lexed checksum is right by chance (features say so).
+	nX, _ := strconv.Atoi(os.Getenv("VERIF_MISPLACED"))
+	lexAndParse := func(family string, raw []byte, payload []byte, pfx string, upper bool) {
+		digits := hex.EncodeToString(raw)
+		if upper {
+			digits = strings.ToUpper(digits)
+		}
+		r := &addrRow{Kind: "parse-x", Pfx: pfx, Hex: "valid", Total: len(raw), Sum: "wrong", Case: lexCase(digits)}
+		if len(raw) >= verifChecksumLen {
+			body, tail := raw[:len(raw)-verifChecksumLen], raw[len(raw)-verifChecksumLen:]
+			if bytes.Equal(tail, hashing.Checksum(body, verifChecksumLen)) {
+				r.Sum = "right"
+				payload = body
+			}
+		}
+		s := digits
+		if pfx == "0x" {
+			s = "0x" + digits
+		}
+		r.parse(s, payload)
+		r.S = family + ":" + s
+		emit(r)
+	}
+	cat := func(parts ...[]byte) []byte {
+		var out []byte
+		for _, p := range parts {
+			out = append(out, p...)
+		}
+		return out
+	}
+	for i := 0; i < nX; i++ {
+		var a codec.Address
+		switch i {
+		case 0: // zero address
+		case 1:
+			for j := range a {
+				a[j] = 0xff
+			}
+		default:
+			rng.Read(a[:])
+		}
+		addr := a[:]
+		hash := hashing.ComputeHash256(addr)
+		sum := hashing.Checksum(addr, verifChecksumLen)
+		pfx := []string{"0x", "none"}[rng.Intn(2)]
+		upper := rng.Intn(4) == 0
+		// address ++ suffix of its hash, every length 0..32 except the real checksum length
+		for l := 0; l <= len(hash); l++ {
+			if l != verifChecksumLen {
+				lexAndParse("addr+hash-suffix", cat(addr, hash[len(hash)-l:]), addr, pfx, upper)
+			}
+		}
+		// address ++ prefix of its hash, address ++ a slice from the middle of the hash
+		for _, l := range []int{1, 4, 8, 32} {
+			lexAndParse("addr+hash-prefix", cat(addr, hash[:l]), addr, pfx, upper)
+		}
+		lexAndParse("addr+hash-middle", cat(addr, hash[10:14]), addr, pfx, upper)
+		rev := []byte{sum[3], sum[2], sum[1], sum[0]}
+		extra := make([]byte, 1+rng.Intn(6))
+		rng.Read(extra)
+		k := 1 + rng.Intn(codec.AddressLen-1)
+		lexAndParse("addr+reversed-checksum", cat(addr, rev), addr, pfx, upper)
+		lexAndParse("addr+checksum+extra", cat(addr, sum, extra), addr, pfx, upper)
+		lexAndParse("addr+checksum+checksum", cat(addr, sum, sum), addr, pfx, upper)
+		lexAndParse("addr+extra+checksum", cat(addr, extra, sum), addr, pfx, upper)
+		lexAndParse("checksum+addr", cat(sum, addr), addr, pfx, upper)
+		lexAndParse("extra+addr+checksum", cat(extra, addr, sum), addr, pfx, upper)
+		lexAndParse("addr-split-around-checksum", cat(addr[:k], sum, addr[k:]), addr, pfx, upper)
+		lexAndParse("addr+checksum-of-prefix", cat(addr, hashing.Checksum(addr[:k], verifChecksumLen)), addr, pfx, upper)
+		lexAndParse("addr+checksum-of-addr+checksum", cat(addr, hashing.Checksum(cat(addr, sum), verifChecksumLen)), addr, pfx, upper)
+		lexAndParse("prefix-of-addr+checksum-of-addr", cat(addr[:k], sum), addr, pfx, upper)
+		lexAndParse("addr+zero-checksum", cat(addr, []byte{0, 0, 0, 0}), addr, pfx, upper)
+		// the well-formed encoding itself, through the same builder (must be accepted when 0x + lower case)
+		lexAndParse("addr+checksum", cat(addr, sum), addr, pfx, upper)
 	}
 
 	// format -> lex -> parse
